@@ -13,7 +13,7 @@ import (
 var textElements = map[string]bool{"t": true, "instrText": true, "delText": true}
 
 // emptyOptional containers are treated as absent when they have neither attributes nor children.
-var emptyOptional = map[string]bool{"rPr": true, "pPr": true, "tcPr": true, "tblPr": true, "trPr": true}
+var emptyOptional = map[string]bool{"rPr": true, "pPr": true, "tcPr": true, "tblPr": true, "trPr": true, "sectPr": true, "jc": true}
 
 // unordered collections: children are sorted by (local name, key attribute).
 var unorderedParents = map[string]string{"styles": "styleId", "numbering": "abstractNumId|numId", "footnotes": "id", "endnotes": "id", "Relationships": "Id", "Types": "Extension|PartName"}
